@@ -269,13 +269,19 @@ func c18Child(c *mon.Child) {
 			continue
 		}
 		log = nil
-		switch i % 3 { // the mappers sit behind every entry point
+		switch i % 4 { // the mappers sit behind every entry point
 		case 0:
 			_, _ = pm.ParseString("m.txt", input)
 		case 1:
 			_, _ = pm.ParseBytes("m.txt", []byte(input))
-		default:
+		case 2:
 			_, _ = pm.Parse("m.txt", strings.NewReader(input))
+		default:
+			if lx, err := pm.Lexer().Lex("m.txt", strings.NewReader(input)); err == nil {
+				if pl, err := lexer.Upgrade(lx, elidedTypes(pm.Lexer(), []string{"WS"})...); err == nil {
+					_, _ = pm.ParseFromLexer(pl)
+				}
+			}
 		}
 		var want []lexer.Token
 		for _, t := range raw {
@@ -459,13 +465,24 @@ func init() {
 	})
 }
 
-// c18Via parses through one of the three entry points (the token mappers sit behind all of them).
+// c18Via parses through one of the four entry points (the token mappers sit behind all of them;
+// ParseFromLexer is fed from the parser's own Lexer() definition, with "WS" elided where the lexer has it).
 func c18Via[G any](p *participle.Parser[G], which int, input string) (*G, error) {
-	switch which % 3 {
+	switch which % 4 {
 	case 1:
 		return p.ParseBytes("q.txt", []byte(input))
 	case 2:
 		return p.Parse("q.txt", strings.NewReader(input))
+	case 3:
+		lx, err := p.Lexer().Lex("q.txt", strings.NewReader(input))
+		if err != nil {
+			return nil, err
+		}
+		pl, err := lexer.Upgrade(lx, elidedTypes(p.Lexer(), []string{"WS"})...)
+		if err != nil {
+			return nil, err
+		}
+		return p.ParseFromLexer(pl)
 	}
 	return p.ParseString("q.txt", input)
 }
